@@ -107,7 +107,7 @@ class History:
         big = self.size == 'big'
         self.users = list(range(2, 2 + (r.randint(3, 9) if big else r.randint(1, 6))))
         # guarantee stress: few base winners among many tickets, so that guarantees decide who wins
-        self.stress = (v in V1 or v == 'gt2') and r.random() < 0.4
+        self.stress = (v in V1 or v == 'gt2') and r.random() < (0.6 if self.twin else 0.4)
         if self.stress:
             self.users = list(range(2, 2 + r.randint(3, 6)))
         self.snap_addrs = [OWNER] + self.users + [SUPPORT, STRANGERS[0], SC_CALLERS[0]]
@@ -644,6 +644,8 @@ class History:
                 c = r.choice(self.users + [OWNER, STRANGERS[0], SC_CALLERS[0]])
             elif ep == 'select' or (ep == 'extra' and self.v == 'gt2'):
                 c = r.choice(self.users + [OWNER, OWNER, STRANGERS[0]] + ([SC_CALLERS[0]] if r.random() < 0.15 else []))
+                if r.random() < 0.08:
+                    c = SC_CALLERS[0]      # a contract account tries to start or resume the step
             else:
                 c = r.choice(self.users + [OWNER, STRANGERS[0], SC_CALLERS[0]])
             self.round += r.choice([0, 0, 0, 1, 2])
@@ -652,6 +654,8 @@ class History:
                 self.paused_probe()
                 self.call(OWNER, 'unpause')
             b = self.budget() if n < 40 else '-'
+            if ep == 'extra' and n < 40 and r.random() < 0.5:
+                b = r.choice([0, 0, 1, 1, 2])      # the third step has two phases: many short calls
             rec = self.call(c, ep, budget=b)
             if rec['status'] == 'ok':
                 if rec['ret'] == [0]:
